@@ -48,6 +48,13 @@ CLAIMS = {
          "cmd Config.run, the two httpapi import walks. For dart.Generate and NewLinker the quick tier varies one map range at a time (thorough: full product). Iteration orders are case-split exhaustively, "
          "the solver decides the data-dependent branches (string orderings). NOT decided: pointer-value and visiting-order sources (argued: no %p verb, Source sorted by position), cross-process runs, formatter output.",
          "DESIGN.md section 4 (C07)", ""),
+ "C18": ("Decides the crash mechanisms the statement names, on the functions that contain them; the assertion is always 'no Go runtime error outcome' (explicit panics with a string/error are diagnostics). "
+         "Fixed-width slicing with symbolic identifiers: gounions.jsonForUnion (union name 1..3(5) bytes), randdata.functionID (package name 1..4(6) bytes), dart.codeForEnum (constant names 1..3(4) bytes incl. underscores). "
+         "Type-argument assumption: typescript.typeName on G[int64], G[Named], G[[]string] built with the real types.Instantiate. Node lookup: fetchPkgEnums/fetchConstComment on real go/ast const declarations, "
+         "grouped or not, 1..2 specs x 1..2 names, typed or converted, with/without comment. Directive kernels: ReplaceEnums with #[T.C] naming an enum/struct/variable/undeclared name, member or not; "
+         "_SELECT KEY / UNIQUE directives naming unknown columns through sql.NewTable and sqlcrud.generateTable. Sweeps: typescript, dart (incl. Generate), SQL validators, gounions, randdata on every analysis.Type skeleton "
+         "of depth<=1 (quick) / 2 (thorough) over the nine node kinds. NOT decided: the full statement over all well-typed packages (createType on arbitrary go/types graphs, unbounded recursion, packages.Load).",
+         "DESIGN.md section 4 (C18)", ""),
 }
 
 NA = {
